@@ -141,15 +141,17 @@ int main(int argc, char** argv)
             TestRegistry reg;
             CommandLineArguments args(ac, av);
             acc = args.parse(reg.getFirstPlugin());
-            unsigned long seed = (unsigned long) args.getShuffleSeed();
-            char b[512];
+            // seed and repeat count are logged exactly: the decimal text of the configured size_t value, as a byte string
+            // (the specification compares numbers as digit sequences - they do not fit its 32-bit integers)
+            std::string seedText = std::to_string((unsigned long long) args.getShuffleSeed());
+            std::string repeatText = std::to_string((unsigned long long) args.getRepeatCount());
+            char b[768];
             snprintf(b, sizeof b, "\"acc\":%s,\"help\":%s,\"verbose\":%s,\"vv\":%s,\"color\":%s,\"sep\":%s,\"lg\":%s,\"ln\":%s,\"ll\":%s,\"ri\":%s,"
-                     "\"rev\":%s,\"crash\":%s,\"rethrow\":%s,\"shuffle\":%s,\"seed\":%lu,\"repeat\":%lu,\"out\":\"%s\"",
+                     "\"rev\":%s,\"crash\":%s,\"rethrow\":%s,\"shuffle\":%s,\"seed\":%s,\"repeat\":%s,\"out\":\"%s\"",
                      jb(acc), jb(args.needHelp()), jb(args.isVerbose()), jb(args.isVeryVerbose()), jb(args.isColor()), jb(args.runTestsInSeperateProcess()),
                      jb(args.isListingTestGroupNames()), jb(args.isListingTestGroupAndCaseNames()), jb(args.isListingTestLocations()), jb(args.isRunIgnored()),
                      jb(args.isReversing()), jb(args.isCrashingOnFail()), jb(args.isRethrowingExceptions()), jb(args.isShuffling()),
-                     seed > 2147483647UL ? 2147483647UL : seed,
-                     (unsigned long) (args.getRepeatCount() > 2147483647UL ? 2147483647UL : args.getRepeatCount()),
+                     jbytes(seedText).c_str(), jbytes(repeatText).c_str(),
                      args.isJUnitOutput() ? "junit" : args.isTeamCityOutput() ? "teamcity" : args.isEclipseOutput() ? "eclipse" : "?");
             cfgjs = b;
             repeat = (unsigned long) args.getRepeatCount();
